@@ -538,6 +538,12 @@ def iter_next(ex, it):
                     return x
     if isinstance(it, Struct) and it.name == "Range":
         s, e = it.f
+        if e.concrete() is None or s.concrete() is None:
+            k = getattr(ex, "range_iters", {}).get(id(it), 0)
+            if k >= 2:
+                from .executor import PathBound
+                raise PathBound("loop over a symbolic range: more than 2 iterations")
+            ex.range_iters[id(it)] = k + 1
         if ex.decide(z3.ULT(s.t, e.t)):
             it.f[0] = Int(s.t + 1, s.ty)
             return s
